@@ -36,7 +36,17 @@ type c12fStep struct {
 	name string
 	repo string
 	run  func(h *olareg.Server) string
+	// eff (optional) tells what the answers of the step acknowledge and what the step may have removed or changed
+	// whatever it answered: keys "blob:<repo>:<digest>", "man:<repo>:<digest>", "tag:<repo>:<tag>" (value: digest)
+	eff func(res string) (acks map[string]c12fObj, touches []string)
 }
+
+type c12fObj struct {
+	digest string
+	body   []byte
+}
+
+func c12fCodes(res string) []string { return strings.Split(res, "/") }
 
 func c12fHistory(t *rapid.T) []c12fStep {
 	repos := []string{"r", "r/n"}
@@ -64,6 +74,17 @@ func c12fHistory(t *rapid.T) []c12fStep {
 		switch kind {
 		case "blobPost":
 			s.run = func(h *olareg.Server) string { return post(h, rn, cfg) + "/" + post(h, rn, layers[li]) }
+			s.eff = func(res string) (map[string]c12fObj, []string) {
+				a := map[string]c12fObj{}
+				c := c12fCodes(res)
+				if c[0] == "201" {
+					a["blob:"+rn+":"+cfgD] = c12fObj{cfgD, cfg}
+				}
+				if len(c) > 1 && c[1] == "201" {
+					a["blob:"+rn+":"+dig("sha256", layers[li])] = c12fObj{dig("sha256", layers[li]), layers[li]}
+				}
+				return a, nil
+			}
 		case "blobChunked":
 			s.run = func(h *olareg.Server) string {
 				b := layers[li]
@@ -84,6 +105,12 @@ func c12fHistory(t *rapid.T) []c12fStep {
 				r3 := doReq(h, "PUT", loc+sep+"digest="+url.QueryEscape(dig("sha256", b)), b[cut:], hdr("Content-Range", fmt.Sprintf("%d-%d", cut, len(b)-1)))
 				return fmt.Sprintf("202/202/%d", r3.code)
 			}
+			s.eff = func(res string) (map[string]c12fObj, []string) {
+				if c := c12fCodes(res); c[len(c)-1] == "201" {
+					return map[string]c12fObj{"blob:" + rn + ":" + dig("sha256", layers[li]): {dig("sha256", layers[li]), layers[li]}}, nil
+				}
+				return nil, nil
+			}
 		case "blobPostPut":
 			s.run = func(h *olareg.Server) string {
 				b := layers[li]
@@ -98,6 +125,12 @@ func c12fHistory(t *rapid.T) []c12fStep {
 				}
 				return fmt.Sprintf("202/%d", doReq(h, "PUT", loc+sep+"digest="+url.QueryEscape(dig("sha256", b)), b, nil).code)
 			}
+			s.eff = func(res string) (map[string]c12fObj, []string) {
+				if c := c12fCodes(res); c[len(c)-1] == "201" {
+					return map[string]c12fObj{"blob:" + rn + ":" + dig("sha256", layers[li]): {dig("sha256", layers[li]), layers[li]}}, nil
+				}
+				return nil, nil
+			}
 		case "mount":
 			s.run = func(h *olareg.Server) string {
 				from := repos[0]
@@ -109,6 +142,12 @@ func c12fHistory(t *rapid.T) []c12fStep {
 					_ = doReq(h, "DELETE", sessionPath(r.hdr.Get("Location")), nil, nil)
 				}
 				return fmt.Sprint(r.code)
+			}
+			s.eff = func(res string) (map[string]c12fObj, []string) {
+				if res == "201" {
+					return map[string]c12fObj{"blob:" + rn + ":" + dig("sha256", layers[li]): {dig("sha256", layers[li]), layers[li]}}, nil
+				}
+				return nil, nil
 			}
 		case "uploadCancel":
 			s.run = func(h *olareg.Server) string {
@@ -128,11 +167,44 @@ func c12fHistory(t *rapid.T) []c12fStep {
 				}
 				return post(h, rn, cfg) + "/" + post(h, rn, layers[ii%len(layers)]) + "/" + fmt.Sprint(doReq(h, "PUT", "/v2/"+rn+"/manifests/"+ref, raw, hdr("Content-Type", mtImage)).code)
 			}
+			s.eff = func(res string) (map[string]c12fObj, []string) {
+				raw, d := img(ii, nil, "")
+				a := map[string]c12fObj{}
+				c := c12fCodes(res)
+				l := layers[ii%len(layers)]
+				if c[0] == "201" {
+					a["blob:"+rn+":"+cfgD] = c12fObj{cfgD, cfg}
+				}
+				if len(c) > 1 && c[1] == "201" {
+					a["blob:"+rn+":"+dig("sha256", l)] = c12fObj{dig("sha256", l), l}
+				}
+				touches := []string{}
+				if kind == "imageByTag" {
+					touches = append(touches, "tag:"+rn+":"+tag) // a tag push moves the tag, whatever it answers
+				}
+				if len(c) > 2 && c[2] == "201" {
+					a["man:"+rn+":"+d] = c12fObj{d, raw}
+					if kind == "imageByTag" {
+						a["tag:"+rn+":"+tag] = c12fObj{d, raw}
+					}
+				}
+				return a, touches
+			}
 		case "indexPut":
 			s.run = func(h *olareg.Server) string {
 				raw, d := img(ii, nil, "")
 				iraw, _ := buildIndex(mtIndex, []mdesc{{MediaType: mtImage, Digest: d, Size: int64(len(raw))}}, nil, "", nil)
 				return fmt.Sprint(doReq(h, "PUT", "/v2/"+rn+"/manifests/"+tag+"-idx", iraw, hdr("Content-Type", mtIndex)).code)
+			}
+			s.eff = func(res string) (map[string]c12fObj, []string) {
+				raw, d := img(ii, nil, "")
+				iraw, _ := buildIndex(mtIndex, []mdesc{{MediaType: mtImage, Digest: d, Size: int64(len(raw))}}, nil, "", nil)
+				// the child leaves the top level of the index when its parent is accepted (finding 12): by-digest reads of it are not asserted from here on
+				touches := []string{"tag:" + rn + ":" + tag + "-idx", "man:" + rn + ":" + d}
+				if res == "201" {
+					return map[string]c12fObj{"tag:" + rn + ":" + tag + "-idx": {dig("sha256", iraw), iraw}, "man:" + rn + ":" + dig("sha256", iraw): {dig("sha256", iraw), iraw}}, touches
+				}
+				return nil, touches
 			}
 		case "artifactPut":
 			s.run = func(h *olareg.Server) string {
@@ -140,16 +212,34 @@ func c12fHistory(t *rapid.T) []c12fStep {
 				raw, d := img(ii, &mdesc{MediaType: mtImage, Digest: sd, Size: int64(len(sraw))}, "application/vnd.x.sig")
 				return post(h, rn, cfg) + "/" + post(h, rn, layers[ii%len(layers)]) + "/" + fmt.Sprint(doReq(h, "PUT", "/v2/"+rn+"/manifests/"+d, raw, hdr("Content-Type", mtImage)).code)
 			}
+			s.eff = func(res string) (map[string]c12fObj, []string) {
+				sraw, sd := img(0, nil, "")
+				raw, d := img(ii, &mdesc{MediaType: mtImage, Digest: sd, Size: int64(len(sraw))}, "application/vnd.x.sig")
+				if c := c12fCodes(res); len(c) > 2 && c[2] == "201" {
+					return map[string]c12fObj{"man:" + rn + ":" + d: {d, raw}}, nil
+				}
+				return nil, nil
+			}
 		case "tagDelete":
-			s.run = func(h *olareg.Server) string { return fmt.Sprint(doReq(h, "DELETE", "/v2/"+rn+"/manifests/"+tag, nil, nil).code) }
+			s.run = func(h *olareg.Server) string {
+				return fmt.Sprint(doReq(h, "DELETE", "/v2/"+rn+"/manifests/"+tag, nil, nil).code)
+			}
+			s.eff = func(string) (map[string]c12fObj, []string) { return nil, []string{"tag:" + rn + ":" + tag} }
 		case "manifestDelete":
 			s.run = func(h *olareg.Server) string {
 				_, d := img(ii, nil, "")
 				return fmt.Sprint(doReq(h, "DELETE", "/v2/"+rn+"/manifests/"+d, nil, nil).code)
 			}
+			s.eff = func(string) (map[string]c12fObj, []string) {
+				_, d := img(ii, nil, "")
+				return nil, []string{"man:" + rn + ":" + d, "tag:" + rn + ":*"} // every tag that pointed to it goes with it
+			}
 		case "blobDelete":
 			s.run = func(h *olareg.Server) string {
 				return fmt.Sprint(doReq(h, "DELETE", "/v2/"+rn+"/blobs/"+dig("sha256", layers[li]), nil, nil).code)
+			}
+			s.eff = func(string) (map[string]c12fObj, []string) {
+				return nil, []string{"blob:" + rn + ":" + dig("sha256", layers[li])}
 			}
 		case "collect":
 			s.run = func(h *olareg.Server) string { return fmt.Sprint(h.VerifGC(rn)) }
@@ -159,7 +249,9 @@ func c12fHistory(t *rapid.T) []c12fStep {
 				return fmt.Sprint(h.VerifGCPass(now, now.Add(-time.Hour)))
 			}
 		case "tagList":
-			s.run = func(h *olareg.Server) string { return fmt.Sprint(doReq(h, "GET", "/v2/"+rn+"/tags/list", nil, nil).code) }
+			s.run = func(h *olareg.Server) string {
+				return fmt.Sprint(doReq(h, "GET", "/v2/"+rn+"/tags/list", nil, nil).code)
+			}
 		case "manifestGet":
 			s.run = func(h *olareg.Server) string {
 				return fmt.Sprint(doReq(h, "GET", "/v2/"+rn+"/manifests/"+tag, nil, hdr("Accept", acceptAll)).code)
@@ -176,11 +268,30 @@ func c12fHistory(t *rapid.T) []c12fStep {
 	for _, rn := range repos {
 		rn := rn
 		steps = append(steps,
-			c12fStep{name: "epilogue tagList " + rn, repo: rn, run: func(h *olareg.Server) string { return fmt.Sprint(doReq(h, "GET", "/v2/"+rn+"/tags/list", nil, nil).code) }},
-			c12fStep{name: "epilogue blobHead " + rn, repo: rn, run: func(h *olareg.Server) string { return fmt.Sprint(doReq(h, "HEAD", "/v2/"+rn+"/blobs/"+cfgD, nil, nil).code) }},
+			c12fStep{name: "epilogue tagList " + rn, repo: rn, run: func(h *olareg.Server) string {
+				return fmt.Sprint(doReq(h, "GET", "/v2/"+rn+"/tags/list", nil, nil).code)
+			}},
+			c12fStep{name: "epilogue blobHead " + rn, repo: rn, run: func(h *olareg.Server) string {
+				return fmt.Sprint(doReq(h, "HEAD", "/v2/"+rn+"/blobs/"+cfgD, nil, nil).code)
+			}},
 			c12fStep{name: "epilogue push " + rn, repo: rn, run: func(h *olareg.Server) string {
 				raw, _ := img(1, nil, "")
 				return post(h, rn, cfg) + "/" + post(h, rn, layers[1]) + "/" + fmt.Sprint(doReq(h, "PUT", "/v2/"+rn+"/manifests/after", raw, hdr("Content-Type", mtImage)).code)
+			}, eff: func(res string) (map[string]c12fObj, []string) {
+				raw, d := img(1, nil, "")
+				a := map[string]c12fObj{}
+				c := c12fCodes(res)
+				if c[0] == "201" {
+					a["blob:"+rn+":"+cfgD] = c12fObj{cfgD, cfg}
+				}
+				if len(c) > 1 && c[1] == "201" {
+					a["blob:"+rn+":"+dig("sha256", layers[1])] = c12fObj{dig("sha256", layers[1]), layers[1]}
+				}
+				if len(c) > 2 && c[2] == "201" {
+					a["man:"+rn+":"+d] = c12fObj{d, raw}
+					a["tag:"+rn+":after"] = c12fObj{d, raw}
+				}
+				return a, []string{"tag:" + rn + ":after"}
 			}},
 			c12fStep{name: "epilogue collect " + rn, repo: rn, run: func(h *olareg.Server) string { return fmt.Sprint(h.VerifGC(rn)) }})
 	}
